@@ -120,7 +120,117 @@ class Prog08(dbworld.Prog):
         super().step(st)
 
 
+class BlobPackWorld:
+    """A DB over the BlobStorage wrapper (over FileStorage 'BF' or
+    MappingStorage 'BM') with a blob B that has two revisions, for the
+    packer + blob committer harnesses."""
+
+    def __init__(self, kind):
+        import os
+        import transaction
+        env.reset_globals()
+        dbworld.own_hash_order()
+        self.kind = kind
+        self.dir = env.new_dir('bw')
+        FS = env.mod('ZODB.FileStorage.FileStorage').FileStorage
+        MS = env.mod('ZODB.MappingStorage').MappingStorage
+        BS = env.mod('ZODB.blob').BlobStorage
+        self.Blob = env.mod('ZODB.blob').Blob
+        base = (FS(os.path.join(self.dir, 'Data.fs')) if kind == 'BF'
+                else MS('m'))
+        self.storage = BS(os.path.join(self.dir, 'bl'), base)
+        self.db = env.mod('ZODB.DB').DB(self.storage)
+        self.events = []
+        tm = transaction.TransactionManager()
+        c = self.db.open(tm)
+        b = self.Blob()
+        with b.open('w') as f:
+            f.write(b'B0')
+        c.root()['B'] = b
+        env.CLOCK.now += 1
+        tm.commit()
+        with b.open('w') as f:
+            f.write(b'B1')
+        env.CLOCK.now += 1
+        tm.commit()
+        c.close()
+        env.CLOCK.now += 1
+        self.expected = {'B': b'B1'}
+
+    def log(self, *ev):
+        self.events.append(ev)
+
+    def close(self):
+        try:
+            self.db.close()
+        except Exception:
+            pass
+        env.rm_dir(self.dir)
+
+
+def blob_run_one(cfg, choices):
+    import transaction
+    sched.install_locks()
+    w = BlobPackWorld(cfg['kind'])
+
+    def committer(s, t):
+        tm = transaction.TransactionManager()
+        c = w.db.open(tm)
+        data = b'new-' + cfg['what'].encode()
+        if cfg['what'] == 'create':
+            b = w.Blob()
+            c.root()['N'] = b
+            name = 'N'
+        else:
+            b = c.root()['B']
+            name = 'B'
+        with b.open('w') as f:
+            f.write(data)
+        tm.commit()
+        w.expected[name] = data
+        w.log('commit-done', name)
+        c.close()
+
+    def packer(s, t):
+        w.db.pack(env.CLOCK.now - 0.5)
+        w.log('pack-done')
+    S = sched.Scheduler([packer, committer], choices)
+    S.run()
+    return S, w
+
+
+def blob_judge(cfg, S, w):
+    import transaction
+    from mc.battery import call
+    for t in S.threads:
+        if t.outcome and t.outcome[0] == 'exc':
+            e = t.outcome[1]
+            return 'thread-exc', [('error', 'blobwrap:%s:thread:%s' % (
+                cfg['kind'], type(e).__name__),
+                dict(thread=t.id, error=repr(e)[:300]))]
+    if S.verdict is not None:
+        return 'verdict-%s' % S.verdict, []
+    viol = []
+    tm = transaction.TransactionManager()
+    c = w.db.open(tm)
+    try:
+        root = c.root()
+        for name, data in sorted(w.expected.items()):
+            got = call(lambda: root[name].open('r').read())
+            if got != data:
+                viol.append(('lost', 'blobwrap:%s:%s:committed-blob-'
+                             'unreadable' % (cfg['kind'], cfg['what']),
+                             dict(blob=name, expected=data,
+                                  got=repr(got)[:120])))
+    finally:
+        tm.abort()
+        c.close()
+    return 'blobwrap-' + '-'.join(e[0] for e in w.events), viol
+
+
 def run_one(cfg, choices):
+    if cfg.get('blobwrap'):
+        return blob_run_one(cfg, choices)
     sched.install_locks()
     iolog.READS[0] = True
     w = setup(cfg.get('kind', 'F'), cfg.get('bufsize', 8192))
@@ -178,6 +288,8 @@ def xy_revs(w, revs):
 
 
 def judge(cfg, S, w):
+    if cfg.get('blobwrap'):
+        return blob_judge(cfg, S, w)
     from checks import c02_snapshot, c03_lostupdate
     viol = []
     if cfg['name'].startswith('packnow'):
@@ -562,6 +674,21 @@ def run(rep, tier, seed, workers):
         plan.append((dict(prop='C08', name=name, lines=1),
                      1 if tier == 'quick' else 2))
         rep.bounds['%s line-level preemptions' % name] = plan[-1][1]
+    # the BlobStorage wrapper's own pack (it walks the blob directory
+    # without the commit lock) against a transaction that stores a blob
+    # (over a FileStorage the wrapped pack needs the commit lock before
+    # the walk starts, so a commit in progress *during* the walk takes
+    # three preemptions: into the committer, back after its storeBlob, and
+    # into its tpc_finish between two steps of the walk)
+    for kind in ('BF', 'BM'):
+        for what in ('create', 'rewrite'):
+            b = bound
+            if kind == 'BF' and (what == 'rewrite' or tier != 'quick'):
+                b = 3
+            plan.append((dict(prop='C08', name='blobwrap:pack+committer',
+                              blobwrap=1, kind=kind, what=what), b))
+            rep.bounds['BlobStorage wrapper (%s), pack + committer (%s): '
+                       'preemptions' % (kind, what)] = b
     schedx.explore_many(rep, MOD, plan, workers, seed)
     from mc import par
     par.run_tasks([(MOD, 'pack_fault_task', (v,))
